@@ -474,18 +474,21 @@ def job_refcheck(job):
             snvs = [(CONTIG, q, (wrong if q == p else R[q]), tuple(b for b in "ACGT" if b not in (wrong, R[q]))[:1] if q == p else SNV_ALLELES[k][1:])
                     for k, q in enumerate(SNV_POS)]
             vcf = synth.write_snvs(str(d), snvs, name="bad_%d_%s.vcf" % (p, wrong))
-            base = Locus(CONTIG, START, STOP, "L", None, None)
-            for order in ("seq-first", "variants-first"):
-                r.evaluations += 1
-                r.nontrivial += 1
-                try:
-                    if order == "seq-first":
-                        base.set_sequence(fa).set_variants(vcf)
-                    else:
-                        base.set_variants(vcf).set_sequence(fa)
-                    r.violation("ref-snv-vs-fasta|pos=%d|base=%s|%s" % (p, wrong, order), "SNV file REF %s at %d disagrees with the FASTA base %s but no error was raised" % (wrong, p + 1, R[p]), payload)
-                except ValueError:
-                    r.outcome(("raised", p, wrong, order))
+            # the offending SNV in the interior of the target, on its first base, on its last base, and as its only base
+            for (w0, w1, where) in ((START, STOP, "interior"), (p, p + 6, "first-base"), (p - 5, p + 1, "last-base"), (p, p + 1, "only-base")):
+                base = Locus(CONTIG, w0, w1, "L", None, None)
+                for order in ("seq-first", "variants-first"):
+                    r.evaluations += 1
+                    r.nontrivial += 1
+                    try:
+                        if order == "seq-first":
+                            base.set_sequence(fa).set_variants(vcf)
+                        else:
+                            base.set_variants(vcf).set_sequence(fa)
+                        r.violation("ref-snv-vs-fasta|%s|%s" % (where, order), "SNV file REF %s at %d (target [%d, %d)) disagrees with the FASTA base %s but no error was raised" % (
+                            wrong, p + 1, w0, w1, R[p]), payload)
+                    except ValueError:
+                        r.outcome(("raised", p, wrong, order, where))
     # (b) alignment reference (MD) vs SNV file: the alignment claims another reference base at the SNV
     for j, p in enumerate(SNV_POS):
         for wrong in "ACGT":
